@@ -159,8 +159,6 @@ def install(fl) -> bool:
                 for k, v in d.items()}
 
     def mk_context(orig):
-        inner = orig.__wrapped__ if hasattr(orig, "__wrapped__") else None
-
         @contextlib.contextmanager
         def context(self, **kw):
             named = sorted(k for k, v in kw.items() if v is not None)
@@ -168,18 +166,17 @@ def install(fl) -> bool:
             cm = orig(self, **kw)
             cm.__enter__()
             _emit("settings.enter", self, named=named, before=before, inside=snap(self))
-            exc = None
             try:
                 yield
             except BaseException as e:
-                exc = e
+                last = snap(self)
                 if not cm.__exit__(type(e), e, e.__traceback__):
-                    _emit("settings.exit", self, named=named, before=before, after=snap(self), raised=type(e).__name__)
+                    _emit("settings.exit", self, named=named, before=before, last=last, after=snap(self), raised=type(e).__name__)
                     raise
             else:
+                last = snap(self)
                 cm.__exit__(None, None, None)
-            if exc is None:
-                _emit("settings.exit", self, named=named, before=before, after=snap(self), raised=None)
+                _emit("settings.exit", self, named=named, before=before, last=last, after=snap(self), raised=None)
         return context
 
     _wrap(S, "context", mk_context)
